@@ -7,9 +7,25 @@ THEOREMS: dict[str, list[str]] = {
         "Rbacx.C02.c02_first_applicable",
         "Rbacx.C02.c02_none_applicable",
     ],
+    "C12": [
+        "Rbacx.C12.c12_sound",
+        "Rbacx.C12.c12_never_true_unless_derivable",
+        "Rbacx.C12.c12_complete",
+        "Rbacx.C12.c12_exact",
+        "Rbacx.C12.c12_never_clock_no_deadline",
+        "Rbacx.C12.c12_limits_fail_closed",
+        "Rbacx.C12.c12_limits_only_lose",
+        "Rbacx.C12.c12_bad_caveats_inert",
+        "Rbacx.C12.c12_caveat_needed",
+        "Rbacx.C12.c12_terminates",
+        "Rbacx.C12.c12_batch_eq_map",
+        "Rbacx.C12.c12_batch_each",
+        "Rbacx.C12.c12_spec_decides",
+        "Rbacx.C12.c12_model_meets_spec",
+    ],
 }
 
-PROPERTY_IMPORTS = ["Rbacx.Properties.C02"]
+PROPERTY_IMPORTS = ["Rbacx.Properties.C02", "Rbacx.Properties.C12"]
 
 
 def audit_source() -> str:
